@@ -295,6 +295,9 @@ impl Property for C10 {
                 }
                 Op::Analyse(p, collect) => {
                     let text = render_pieces(&keys, p);
+                    if f7_guard(&mut rep, &case.dic, &case.cfg, &text, ctx.strict) {
+                        continue;
+                    }
                     if text.len() < prev_len {
                         saw_longer_first = true;
                     }
@@ -339,6 +342,9 @@ impl Property for C10 {
                         text.push_str(&unit);
                         text.push('x');
                     }
+                    if f7_guard(&mut rep, &case.dic, &case.cfg, &text, ctx.strict) {
+                        continue;
+                    }
                     prev_len = text.len();
                     match compare(&mut rep, &mut tok, &mut list, &text, mode, subset, true, &what) {
                         None => return rep,
@@ -358,15 +364,59 @@ impl Property for C10 {
                 }
                 Op::Lookup(q) => {
                     if !keys.is_empty() {
+                        // exact lookup on the reused list, then on-demand splits of what it found: everything must
+                        // equal the same calls on a fresh list (the list keeps a field request of its own)
                         let query = keys[ix(*q, keys.len())].clone();
+                        let s = subset.unwrap_or(InfoSubset::all());
                         list.clear();
-                        let _ = list.lookup(&query, subset.unwrap_or(InfoSubset::all()));
-                        // a lookup replaces the list's input buffer state: the next collect must still be right
+                        let mut fresh = MorphemeList::empty(&dict);
+                        let r = guarded(|| {
+                            let a = list.lookup(&query, s).map_err(|e| e.to_string());
+                            let f = fresh.lookup(&query, s).map_err(|e| e.to_string());
+                            if a.is_err() != f.is_err() {
+                                return Err(format!("lookup({:?}) on the reused list gives {:?}, on a fresh list {:?}", query, a, f));
+                            }
+                            let sn = s.normalize();
+                            let (oa, of) = (observe(&list, sn), observe(&fresh, sn));
+                            if oa != of {
+                                return Err(format!("lookup({:?}) subset {:?}: reused list {:?}, fresh list {:?}", query, s, oa, of));
+                            }
+                            for i in 0..list.len() {
+                                for sm in [Mode::A, Mode::B] {
+                                    let mut sa = MorphemeList::empty(&dict);
+                                    let mut sf = MorphemeList::empty(&dict);
+                                    let da = list.get(i).split_into(sm, &mut sa).map_err(|e| e.to_string());
+                                    let df = fresh.get(i).split_into(sm, &mut sf).map_err(|e| e.to_string());
+                                    if da != df {
+                                        return Err(format!("lookup({:?}) entry {} split {}: reused list says {:?}, fresh list {:?}", query, i, mode_name(sm), da, df));
+                                    }
+                                    let (xa, xf) = (observe(&sa, sn), observe(&sf, sn));
+                                    if xa != xf {
+                                        return Err(format!("lookup({:?}) subset {:?} entry {} split {}: pieces from the reused list {:?}, from a fresh list {:?}", query, s, i, mode_name(sm), xa, xf));
+                                    }
+                                }
+                            }
+                            Ok(())
+                        });
+                        match r {
+                            Ok(Ok(())) => {}
+                            Ok(Err(d)) => {
+                                rep.fail("lookup-history-dependent", format!("{}: {}", what, d));
+                                return rep;
+                            }
+                            Err(p) => {
+                                rep.fail(&format!("lookup-panic:{}", panic_site(&p)), format!("{}: lookup / split on the reused list: {}", what, p));
+                                return rep;
+                            }
+                        }
                     }
                 }
             }
         }
         let probe = render_pieces(&keys, &case.probe);
+        if f7_guard(&mut rep, &case.dic, &case.cfg, &probe, ctx.strict) {
+            return rep;
+        }
         if probe.len() < prev_len {
             saw_longer_first = true;
         }
@@ -387,4 +437,30 @@ impl Property for C10 {
         }
         rep
     }
+}
+
+/// reproducers of recorded findings (written by `vcheck fixtures`)
+pub fn fixtures() -> Vec<(&'static str, Case, &'static str)> {
+    let noun = pos_from_str(POS_NOUN);
+    let mut a = Entry::simple("東京", 0, 0, 100, &noun);
+    a.reading = "トウキョウ".into();
+    let mut b = Entry::simple("都", 0, 0, 100, &noun);
+    b.reading = "ト".into();
+    let mut c = Entry::simple("東京都", 0, 0, 100, &noun);
+    c.reading = "トウキョウト".into();
+    c.mode = 'C';
+    c.split_a = vec![WRef::Sys(0), WRef::Sys(1)];
+    let dic = DicModel { matrix: Matrix { nl: 1, nr: 1, lines: vec![] }, system: vec![a, b, c], users: vec![] };
+    let cfg = CfgModel::minimal(&noun);
+    vec![(
+        "f24-lookup-keeps-stale-field-request.json",
+        Case {
+            dic,
+            cfg,
+            // field request {surface}, an analysis collected into the list, field request {everything}, exact lookup of 東京都
+            ops: vec![Op::SetSubset(1), Op::Analyse(vec![Piece::Raw("都".into())], true), Op::SetSubset(1023), Op::Lookup(0xffff)],
+            probe: vec![Piece::Raw("都".into())],
+        },
+        "F24: MorphemeList::lookup(query, subset) did not record `subset` as the list's field request; on-demand splits of the entries it found were loaded with the request of the list's previous collect (here: surface only, so the pieces of 東京都 had no reading / part of speech), unlike the same calls on a fresh list",
+    )]
 }
